@@ -1277,7 +1277,7 @@ def gen_vocab_cases(prop, lang, rnd, titles, toks, ncases):
         vocab = [u, v, u + rnd.choice(suffix), v + rnd.choice(suffix), g] + rnd.sample(fws, min(2, len(fws)))
         c = Case(prop, "vocab", lang=lang)
         sid = c.new_store(lang)
-        n = rnd.randint(3, 5)
+        n = rnd.randint(6, 8)          # many records per store: the number of record triples grows with the cube
         rt = distinct_ratings(rnd, n, hi=100)
         seen = set()
         for i in range(n):
@@ -1295,7 +1295,7 @@ def gen_vocab_cases(prop, lang, rnd, titles, toks, ncases):
                 rnd.shuffle(o)
                 perms.append(o)
             if prop == "C07":
-                c.search(sid, q, want=["qtok", "pairs"], max_pairs=6, perms=perms)
+                c.search(sid, q, want=["qtok", "pairs"], max_pairs=28, perms=perms)
             else:
                 c.search(sid, q, want=["qtok", "singles", "unlimited"])
         cases.append(c)
